@@ -52,6 +52,13 @@ def corruption_lines(kind, rng_word):
         "define-chain-stmt": ([".define ZS0_%s .db 5" % w] + [".define ZS%d_%s ZS%d_%s" % (i, w, i - 1, w) for i in range(1, 131)] +
                               ["ZS130_%s" % w, ".db 7"], True, False),
         "macro-recursive": ([".macro RM_%s" % w, ".db 1", "RM_%s" % w, ".endm", "RM_%s" % w, ".db 7"], True, False),
+        # an error raised deep inside an expression (division by zero) must surface whatever the operator order
+        "div-zero": ([".db 4 / 0"], True, False),
+        "div-zero-after-add": ([".dw 2 + 8 / 0"], True, False),
+        "div-zero-before-add": ([".dw 8 / 0 + 2"], True, False),
+        "mod-zero-after-mul": ([".dw 2 * 3 + 7 % 0"], True, False),
+        "div-zero-in-parens": ([".dw 1 + (6 / (3 - 3)) * 2"], True, False),
+        "div-zero-via-equ": (["DZ_%s equ 0" % w, ".dw 2 + 100 / DZ_%s" % w], True, False),
         # consistency only (may happen to form another valid statement)
         "db-trailing-comma": ([".db 1,"], False, False),
         "db-empty": ([".db"], False, False),
@@ -66,12 +73,13 @@ KINDS = ["unknown-mnemonic", "undefined-symbol", "undefined-symbol-dw", "out-of-
          "if-bad-expression", "unterminated-if", "unterminated-ifdef", "stray-else", "stray-endif", "stray-endr",
          "stray-endm", "unterminated-macro", "unterminated-comment", "unterminated-repeat",
          "define-self", "define-mutual", "define-chain-129", "define-chain-stmt", "macro-recursive",
-         "db-trailing-comma", "db-empty", "define-empty", "operand-drop", "operand-extra", "truncate"]
+         "div-zero", "div-zero-after-add", "div-zero-before-add", "mod-zero-after-mul", "div-zero-in-parens", "div-zero-via-equ",
+         "db-trailing-comma", "db-empty", "define-empty", "operand-drop", "operand-extra", "punct-swap", "truncate"]
 PLACES = ["top", "in-macro", "in-include", "in-repeat", "in-if", "in-nested-if", "in-else", "in-ifdef", "in-deep-if"]
 STRUCT_PLACES = ["top", "in-include", "at-end"]
 
-DIRECTED = [(k, p) for k in KINDS[:30] for p in PLACES if not corruption_lines(k, "x")[2]] + \
-           [(k, p) for k in KINDS[:30] for p in STRUCT_PLACES if corruption_lines(k, "x")[2]]
+DIRECTED = [(k, p) for k in KINDS[:36] for p in PLACES if not corruption_lines(k, "x")[2]] + \
+           [(k, p) for k in KINDS[:36] for p in STRUCT_PLACES if corruption_lines(k, "x")[2]]
 
 ERR_LINE = re.compile(r"Error")
 FAIL_DIAG = re.compile(r"Error|Cannot open|Couldn't open|Unknown |Failed|bailing|not supported|No input|Usage")
@@ -154,7 +162,7 @@ class C12(Engine):
                     corrupted = False
                 else:
                     kind = rng.pick(KINDS)
-                    struct = kind not in ("operand-drop", "operand-extra", "truncate") and corruption_lines(kind, "x")[2]
+                    struct = kind not in ("operand-drop", "operand-extra", "punct-swap", "truncate") and corruption_lines(kind, "x")[2]
                     place = rng.pick(STRUCT_PLACES if struct else PLACES)
                     ops.append({"op": "corrupt", "kind": kind, "place": place, "pos": rng.range(1, len(prog["stmts"])),
                                 "w": w, "k": rng.below(100000)})
@@ -200,14 +208,22 @@ class C12(Engine):
             k = op.get("k", 0) % (len(text) + 1)
             p["raw"] = text[:k]
             return p, {"erroneous": False, "kind": kind, "place": "top"}
-        if kind in ("operand-drop", "operand-extra"):
-            idx = [i for i, s in enumerate(p["stmts"]) if len(s) == 1 and s[0].startswith("  ") and i > 0]
+        if kind in ("operand-drop", "operand-extra", "punct-swap"):
+            idx = [i for i, s in enumerate(p["stmts"]) if len(s) == 1 and s[0][:1] in (" ", "\t") and s[0].strip() and i > 0]
+            if kind == "punct-swap":
+                idx = [i for i in idx if re.search(r"[()\[\],#@+]", p["stmts"][i][0])]
             if not idx:
                 return None, None
             i = idx[pos % len(idx)]
             line = p["stmts"][i][0]
             if kind == "operand-drop":
                 line = line.rsplit(",", 1)[0] if "," in line else line.rsplit(" ", 1)[0]
+            elif kind == "punct-swap":
+                # one punctuation character replaced by another: consistency checks only (the result may be valid)
+                spots = [m.start() for m in re.finditer(r"[()\[\],#@+]", line)]
+                at = spots[op.get("k", 0) % len(spots)]
+                repl = "()[],#@+-"[(op.get("k", 0) // 7) % 9]
+                line = line[:at] + repl + line[at + 1:]
             else:
                 line = line + ", 1, 2"
             p["stmts"][i] = [line]
